@@ -64,8 +64,9 @@ CLAIMS = {
     'C13': {'level': 'exploration', 'technique': 'bounded stand-in (brute-force enumeration); the deductive technique does not decide completeness (external all_simple_paths + protocol-level invariant)',
             'text': 'Result compared with a brute-force enumerator written from C12 on the same spaces; empty result when u absent at start; sample<1 subset; '
                     'all_time_respecting_paths against per-source calls. Known finding D19 (self-loop hops).', 'note': BOUNDED_NOTE},
-    'C14': {'level': 'other', 'technique': 'contract-based deductive verification (pyvc) of path_length and path_duration; bounded stand-in for annotate_paths',
-            'text': 'path_length = hop count and path_duration = last minus first time proved for every non-empty path; annotate_paths / path_length / path_duration compared with set comprehensions from the property text over generated path lists.', 'note': BOUNDED_NOTE},
+    'C14': {'level': 'proof', 'technique': 'contract-based deductive verification (pyvc) of annotate_paths (loop invariant over the processed prefix, modular against path_length / path_duration), path_length, path_duration',
+            'text': 'annotate_paths is proved for every non-empty list of non-empty paths: shortest / fastest / foremost list exactly the input paths that minimise hop count / duration / arrival (loop invariant: running minimum attained and a lower bound, the list holds exactly the minimal positions of the prefix), fastest_shortest / shortest_fastest are exactly the best members of shortest / fastest (dict comprehension keyed by content, min over its values, filter), every listed path is an input path, no exception; path_length = hop count and path_duration = last minus first time. A path is abstracted to what the function reads (hop count, first and last time, identity under ==). The bounded part re-checks annotate_paths / path_length / path_duration compared with set comprehensions from the property text over generated path lists.',
+            'note': 'Trusted: pyvc itself and z3; copy.copy(p) == p; min() over dict values; dict comprehension keyed by tuple(path) collapses equal contents; list vs tuple representation of a path is not distinguished (sets of paths are compared by content). ' + BOUNDED_NOTE},
     'C15': {'level': 'exploration', 'technique': 'bounded stand-in (DAG checker from the property text on all small temporal graphs, all roots/targets/windows)',
             'text': 'Acyclicity, edge soundness, window, sources/targets, ValueError for invalid windows, empty DAG without snapshots; ids not 0-based, negative, with gaps. '
                     'Known finding D19 (self-loop on the root).', 'note': BOUNDED_NOTE},
